@@ -992,3 +992,103 @@ Proof.
   - apply perm_swap.
   - vm_compute. discriminate.
 Qed.
+
+(* ------------------------------------------------------------------ deepening 3 *)
+(* forward() overwrites the distribution state: nothing of an earlier forward (on this or any other batch) survives *)
+Theorem forward_forgets_history_lemma ed ed0 lg mask dr :
+  ed_space ed = ed_space ed0 -> ed_squash ed = ed_squash ed0 -> ed_log_std ed = ed_log_std ed0 ->
+  ed_forward ed lg mask dr = ed_forward ed0 lg mask dr.
+Proof.
+  destruct ed as [sp sq ls d], ed0 as [sp0 sq0 ls0 d0]. cbn [ed_space ed_squash ed_log_std]. intros -> -> ->.
+  unfold ed_forward, apply_mask, get_distribution. cbn [ed_space ed_squash ed_log_std]. reflexivity.
+Qed.
+
+(* a forward that raises (mask on a Box space) returns no new state: the caller keeps the old object, whose log_prob is unchanged *)
+Lemma failed_forward_is_noop_lemma ed lg mk dr : is_box (ed_space ed) = true -> ed_forward ed lg (Some mk) dr = None.
+Proof. unfold ed_forward, apply_mask. destruct (ed_space ed); try discriminate. reflexivity. Qed.
+
+(* entropy rows are independent too *)
+Lemma spec_entropy_row_local sp b lrow ls :
+  Forall (fun e => only_row b e = true) lrow -> Forall (fun e => only_row b e = true) ls ->
+  only_row b (spec_entropy_row sp lrow ls) = true.
+Proof.
+  intros Hl Hs. destruct sp as [n|nv|n|d]; cbn [spec_entropy_row only_row]; apply forallb_Forall; try assumption.
+  - apply Forall_forall. intros e He. apply in_map_iff in He as [seg [<- Hin]]. cbn [only_row]. apply forallb_Forall.
+    pose proof (Forall_split_sizes (fun e => only_row b e = true) nv lrow Hl) as H. rewrite Forall_forall in H. apply H. exact Hin.
+  - apply Forall_forall. intros e He. apply in_map_iff in He as [x [<- Hin]]. cbn [only_row]. rewrite Forall_forall in Hl. apply Hl. exact Hin.
+  - apply Forall_forall. intros e He. apply in_map_iff in He as [x [<- Hin]]. cbn [only_row]. rewrite Forall_forall in Hs. apply Hs. exact Hin.
+Qed.
+
+Theorem entropy_rows_independent_lemma sp lg ls b :
+  local2 lg -> (forall b', Forall (fun e => only_row b' e = true) ls) -> b < length lg ->
+  match spec_entropy sp lg ls with
+  | T1 v => length v = length lg /\ only_row b (nth b v dflt) = true
+  | _ => False
+  end.
+Proof.
+  intros Hlg Hls Hb. unfold spec_entropy. split; [apply map_length|].
+  rewrite (nth_map_in _ []) by exact Hb. apply spec_entropy_row_local; [apply Hlg; exact Hb|apply Hls].
+Qed.
+
+(* vectorised IPPO: row k*E + e of a group's stacked tensor is row e of the k-th member of the group (agent_ids order) *)
+Lemma nth_error_concat_uniform {R} (E : nat) (l : list (list R)) : Forall (fun r => length r = E) l ->
+  forall k e, e < E -> nth_error (concat l) (k * E + e) = nth_error (nth k l []) e.
+Proof.
+  induction 1 as [|r l Hr _ IH]; intros k e He.
+  - cbn [concat]. destruct k; cbn [nth]; rewrite !(proj2 (nth_error_None (@nil R) _)) by (cbn; lia); reflexivity.
+  - destruct k as [|k]; cbn [concat nth Nat.mul Nat.add].
+    + rewrite nth_error_app1 by lia. reflexivity.
+    + rewrite nth_error_app2 by lia. replace (E + k * E + e - length r) with (k * E + e) by lia. apply IH. exact He.
+Qed.
+
+Theorem stack_rows_agent_major_lemma {R} (E : nat) (ids : list agent) (d d' : list (agent * list R)) (g : nat) :
+  NoDup (map fst d) -> Permutation d d' ->
+  (forall a, In a (group_members ids g) -> exists rows, lookup_agent a d = Some rows /\ length rows = E) ->
+  stack_rows ids d' g = stack_rows ids d g /\
+  forall k a e, nth_error (group_members ids g) k = Some a -> e < E ->
+    nth_error (stack_rows ids d' g) (k * E + e) = match lookup_agent a d with Some rows => nth_error rows e | None => None end.
+Proof.
+  intros Hnd Hp Hall.
+  assert (Heq : stack_rows ids d' g = stack_rows ids d g).
+  { unfold stack_rows. f_equal. apply map_ext. intro a. rewrite (lookup_agent_perm a d d' Hnd Hp). reflexivity. }
+  split; [exact Heq|]. intros k a e Hk He. rewrite Heq. unfold stack_rows.
+  rewrite (nth_error_concat_uniform E).
+  - assert (Hlt : k < length (group_members ids g)) by (apply (proj1 (nth_error_Some _ _)); rewrite Hk; discriminate).
+    rewrite (nth_map_in _ (0, 0)) by exact Hlt.
+    rewrite (nth_error_nth _ _ _ Hk). destruct (lookup_agent a d); [reflexivity|destruct e; reflexivity].
+  - apply Forall_forall. intros r Hr. apply in_map_iff in Hr as [a0 [<- Hin]].
+    destruct (Hall a0 Hin) as [rows [-> HL]]. exact HL.
+  - exact He.
+Qed.
+
+(* env-major stacking (the seeded round-3 change) puts another agent's row there: refuted for 2 agents x 2 envs *)
+Lemma stack_rows_env_major_refuted_lemma :
+  exists (ids : list agent) (d : list (agent * list nat)) g E,
+    stack_rows_env_major E ids d g <> map Some (stack_rows ids d g).
+Proof. exists [(0, 0); (0, 1)], [((0, 0), [10; 11]); ((0, 1), [20; 21])], 0, 2. vm_compute. discriminate. Qed.
+
+(* a mask whose entries all denote "legal" does not change any value: masking is the identity on unmasked rows *)
+Section OnesMask.
+  Variable T : Type.
+  Variable P : prims T.
+  Variable rho : string -> nat -> nat -> T.
+  Let den := denote T P rho.
+  Definition legal (m : expr) : Prop := forall v, p_maskfill T P (den m) v = v.
+
+  Lemma ones_row lr : forall mr, length mr = length lr -> Forall legal mr ->
+    map den (zipWith (fun l m => MaskFill m l) lr mr) = map den lr.
+  Proof.
+    induction lr as [|l lr IH]; intros [|m mr] HL HF; try discriminate; [reflexivity|].
+    rewrite zipWith_cons. cbn [map]. inversion HF as [|? ? Hm HF']; subst. rewrite IH; [|cbn in HL; lia|assumption].
+    unfold den at 1. cbn [denote]. fold den. rewrite (Hm (den l)). reflexivity.
+  Qed.
+
+  Theorem ones_mask_identity_lemma lg : forall mk, length mk = length lg ->
+    Forall (fun p => length (snd p) = length (fst p) /\ Forall legal (snd p)) (combine lg mk) ->
+    map (map den) (masked_spec lg mk) = map (map den) lg.
+  Proof.
+    unfold masked_spec. induction lg as [|lr lg IH]; intros [|mr mk] HL HF; try discriminate; [reflexivity|].
+    rewrite zipWith_cons. cbn [map combine] in *. inversion HF as [|? ? [H1 H2] HF']; subst. cbn [fst snd] in *.
+    rewrite ones_row by assumption. rewrite IH; [reflexivity|cbn in HL; lia|assumption].
+  Qed.
+End OnesMask.
